@@ -105,3 +105,46 @@ add('C09', 'recursive-call-without-limit', PGF, "num_recursive_guesses = self._h
 add('C09', 'omen-without-limit', PGF, "            return self.omen_generate_guesses(markov_cracker, limit)\n\n        # If it is a capitalization mask", "            return self.omen_generate_guesses(markov_cracker)\n\n        # If it is a capitalization mask", 'fire', 'C09.R3')
 add('C09', 'restore-omen-without-limit (pinned finding)', PGF, "        return self.omen_generate_guesses(markov_cracker, limit)\n\n\n    def save_to_file", "        return self.omen_generate_guesses(markov_cracker)\n\n\n    def save_to_file", 'fire', 'C09.R3')
 add('C09', 'session-subtracts-one', CSF, "                    limit = limit - num_generated_guesses\n                    if limit <= 0:\n                        print(\"Limit reached. Exiting...\",file=sys.stderr)\n                        break", "                    limit = limit - 1\n                    if limit <= 0:\n                        print(\"Limit reached. Exiting...\",file=sys.stderr)\n                        break", 'fire', 'C09.R2')
+
+# ---- C14 ------------------------------------------------------------------------------------------------------
+SEEK_FIXED = "                        total_prob = total_prob - float(split_values[1])\n                        break\n\n                # Reset the file pointer, whether or not a brute force\n                # structure was found\n                file.seek(0)\n"
+add('C14', 'seek-only-when-M-found (pinned defect)', GIO, SEEK_FIXED, "                        total_prob = total_prob - float(split_values[1])\n                        file.seek(0)\n                        break\n", 'fire', 'C14.R1')
+add('C14', 'no-seek-at-all', GIO, "                file.seek(0)\n", "", 'fire', 'C14.R1')
+add('C14', 'seek-before-break-and-after-loop', GIO, SEEK_FIXED, "                        total_prob = total_prob - float(split_values[1])\n                        file.seek(0)\n                        break\n                else:\n                    file.seek(0)\n", 'silent')
+add('C14', 'no-renormalisation', GIO, "                prob = float(split_values[1]) / total_prob", "                prob = float(split_values[1])", 'fire', 'C14.R2')
+add('C14', 'renormalise-always', GIO, "            if skip_brute:\n                for value in file:", "            if True:\n                for value in file:", 'fire', 'C14.R2')
+add('C14', 'drop-M-always', GIO, "                if not skip_brute or 'M' not in new_base['replacements']:", "                if 'M' not in new_base['replacements']:", 'fire', 'C14.R2')
+add('C14', 'keep-condition-demorgan', GIO, "                if not skip_brute or 'M' not in new_base['replacements']:", "                if not (skip_brute and 'M' in new_base['replacements']):", 'silent')
+add('C14', 'mask-prob-half', GIO, "                        'values': ['L'*length],\n                        'prob': 1.0", "                        'values': ['L'*length],\n                        'prob': 0.5", 'fire', 'C14.R3')
+add('C14', 'mask-upper', GIO, "                        'values': ['L'*length],", "                        'values': ['U'*length],", 'fire', 'C14.R3')
+add('C14', 'mask-keeps-original-too', GIO, "                        'values': ['L'*length],", "                        'values': ['L'*length, 'U' + 'L'*(length-1)],", 'fire', 'C14.R3')
+add('C14', 'grammar-before-load_save (pinned defect)', 'pcfg_guesser.py',
+    [("    save_config = None\n    if program_info['cracking_mode'] == 'true_prob_order' and program_info['load_session']:\n        print(\"Restoring previous session: \" + program_info['session_name'],file=sys.stderr)\n        save_config = load_save(save_filename, program_info)\n\n        # Check to make sure it is valid\n        if save_config is None:\n            print(\"Exiting...\",file=sys.stderr)\n            return\n",
+      "    save_config = None\n"),
+     ("        if save_config is None:\n            save_config = create_save_config(program_info)\n",
+      "        if program_info['load_session']:\n            save_config = load_save(save_filename, program_info)\n            if save_config is None:\n                return\n        else:\n            save_config = create_save_config(program_info)\n")], None, 'fire', 'C14.R4')
+add('C14', 'grammar-ignores-skip-case', 'pcfg_guesser.py', "            skip_case = program_info['skip_case'],", "            skip_case = False,", 'fire', 'C14.R4')
+add('C14', 'flag-restored-with-get', 'pcfg_guesser.py', "program_info['skip_case'] = save_config.getboolean('rule_info','skip_case')", "program_info['skip_case'] = save_config.get('rule_info','skip_case')", 'fire', 'C14.R5')
+
+# ---- C12 ------------------------------------------------------------------------------------------------------
+add('C12', 'liveness-exit (pinned defect)', CSF, "            if self.pcfg.should_exit:\n", "            if not user_thread.is_alive():\n", 'fire', 'C12.R1')
+add('C12', 'liveness-via-local', CSF, "            if self.pcfg.should_exit:\n", "            alive = user_thread.is_alive()\n            if self.pcfg.should_exit or not alive:\n", 'fire', 'C12.R1')
+add('C12', 'quit-on-h', CSF, "            if user_input == 'q':", "            if user_input in ('q', 'h'):", 'fire', 'C12.R2')
+add('C12', 'quit-on-eof', CSF, "        user_input = input()\n", "        try:\n            user_input = input()\n        except EOFError:\n            user_input = 'q'\n", 'fire', 'C12.R2')
+add('C12', 'quit-flag-set-by-session', CSF, '                print ("Done processing the PCFG. No more guesses to generate",file=sys.stderr)', '                self.pcfg.should_exit = True\n                print ("Done processing the PCFG. No more guesses to generate",file=sys.stderr)', 'fire', 'C12.R2')
+add('C12', 'break-before-save', CSF, '                print("Saving Session Info",file=sys.stderr)\n                self._save_session()\n                print("Exiting...",file=sys.stderr)\n                break', '                print("Exiting...",file=sys.stderr)\n                break', 'fire', 'C12.R3')
+add('C12', 'poll-flag-in-expansion', PGF, "            for item in self.grammar[pt_type][index]['values']:\n                new_guess = cur_guess + item\n\n                # Figure out if the guess is ready to be printed out or if\n                # there is more to do\n                if len(pt) == 1:\n                    num_guesses += 1\n                    self.print_guess(new_guess)\n\n                    # Check the limit\n                    if limit:\n                        limit = limit - 1\n                        if limit == 0:",
+    "            for item in self.grammar[pt_type][index]['values']:\n                if self.should_exit:\n                    return num_guesses\n                new_guess = cur_guess + item\n\n                # Figure out if the guess is ready to be printed out or if\n                # there is more to do\n                if len(pt) == 1:\n                    num_guesses += 1\n                    self.print_guess(new_guess)\n\n                    # Check the limit\n                    if limit:\n                        limit = limit - 1\n                        if limit == 0:", 'fire', 'C12.R3')
+add('C12', 'status-thread-writes-session-state', 'lib_guesser/status_report.py', '        print("Status Report:",file=sys.stderr)\n', '        print("Status Report:",file=sys.stderr)\n        pcfg.omen_guess_num = 0\n', 'fire', 'C12.R4')
+add('C12', 'status-thread-local-only', 'lib_guesser/status_report.py', '        print("Status Report:",file=sys.stderr)\n', '        print("Status Report:",file=sys.stderr)\n        lines = []\n        lines.append("x")\n', 'silent')
+
+# ---- C15 ------------------------------------------------------------------------------------------------------
+add('C15', 'one-shot-key-kept (pinned defect)', CSF, "                self.save_config.remove_option('guessing_info','omen_guess_number')\n", "", 'fire', 'C15.R1')
+add('C15', 'one-shot-key-removed-only-if-limit', CSF, "                self.save_config.remove_option('guessing_info','omen_guess_number')\n", "                if limit:\n                    self.save_config.remove_option('guessing_info','omen_guess_number')\n", 'fire', 'C15.R1')
+OMEN_TAIL = "            # Check to see if the user wanted to exit the program\n            if self.should_exit:"
+add('C15', 'next-guess-before-quit-test', PGF, OMEN_TAIL, "            guess = markov_cracker.next_guess()\n" + OMEN_TAIL, 'fire', 'C15.R2')
+add('C15', 'omn-name-differs', PGF, "        markov_cracker.load_session(self.save_file[:-4]+'.omn', pt_item)", "        markov_cracker.load_session(self.save_file+'.omn', pt_item)", 'fire', 'C15.R2')
+add('C15', 'pickle-order-swapped', 'lib_guesser/omen/markov_cracker.py', "            pickle.dump(self.cur_ip, file)\n            pickle.dump(self.cur_len, file)", "            pickle.dump(self.cur_len, file)\n            pickle.dump(self.cur_ip, file)", 'fire', 'C15.R3')
+add('C15', 'first-guess-not-restored', 'lib_guesser/omen/markov_cracker.py', "            self.cur_guess.first_guess = first_guess\n", "", 'fire', 'C15.R3')
+add('C15', 'omen-exit-cleared-after-restore', CSF, "                self.save_config.remove_option('guessing_info','omen_guess_number')\n", "                self.save_config.remove_option('guessing_info','omen_guess_number')\n                self.pcfg.omen_exit = False\n", 'fire', 'C15.R4')
+add('C15', 'marker-always-written', CSF, "        if self.pcfg.omen_exit:\n            self.save_config.set(", "        if True:\n            self.save_config.set(", 'fire', 'C15.R4')
